@@ -169,6 +169,33 @@ let run_cmd (f : string array) : string =
      Buffer.add_string b (" csrc=" ^ String.concat "," (List.map (fun x -> hex (string_of_bytes x)) wk.w_src)));
   Buffer.contents b
 
+(* finder <exts comma separated hex> <tree>   tree tokens separated by spaces:
+     F<hexname>  regular file   L<hexname>  symlink   D<hexname> ... U   directory
+   answer: the selected paths (components hex, joined by /), in listing order, separated by spaces *)
+let finder_cmd (f : string array) : string =
+  let exts = if f.(1) = "-" then [] else List.map (fun h -> decode (unhex h)) (String.split_on_char ',' f.(1)) in
+  let toks = List.filter (fun s -> s <> "") (String.split_on_char ' ' f.(2)) in
+  let rec parse_list toks : fslist * string list =
+    match toks with
+    | [] -> (FNil, [])
+    | "U" :: rest -> (FNil, rest)
+    | t :: rest ->
+        let nm = decode (unhex (String.sub t 1 (String.length t - 1))) in
+        if t.[0] = 'F' then
+          let (more, rest') = parse_list rest in (FCons (nm, FFile [], more), rest')
+        else if t.[0] = 'L' then
+          let (more, rest') = parse_list rest in (FCons (nm, FSymlink, more), rest')
+        else
+          let (inner, rest1) = parse_list rest in
+          let (more, rest2) = parse_list rest1 in
+          (FCons (nm, FDir inner, more), rest2) in
+  let (es, _) = parse_list toks in
+  match find_files exts (FDir es) with
+  | None -> "finder ERR"
+  | Some l ->
+      "finder " ^ String.concat " "
+        (List.map (fun (p, _) -> String.concat "/" (List.map (fun c -> hex (encode c)) p)) l)
+
 let handle (line : string) : string =
   let f = Array.of_list (String.split_on_char '\t' line) in
   match f.(0) with
@@ -220,6 +247,7 @@ let handle (line : string) : string =
       | None -> "linecol none"
       | Some (l, c) -> Printf.sprintf "linecol %d %d" (int_of_n l) (int_of_n c))
   | "run" -> run_cmd f
+  | "finder" -> finder_cmd f
   | _ -> "ERR unknown command"
 
 let () =
